@@ -109,7 +109,7 @@ func opTerm(level string, o Op) string {
 	body := "BOk"
 	if o.Body == "fail" {
 		body = "BFail"
-		if level == "sim" {
+		if level == "sim" || o.Real {
 			body = "BFailReal"
 		}
 	}
